@@ -17,11 +17,27 @@ def load():
         if f.endswith(".json"):
             for m in json.load(open(os.path.join(d, f))):
                 out.append(m)
+    # seeded defects written by independent sub-agents (kept under /verif/seeded) double as mutants
+    sd = os.path.join(VERIF, "seeded")
+    if os.path.isdir(sd):
+        for name in sorted(os.listdir(sd)):
+            mp = os.path.join(sd, name, "meta.json")
+            pp = os.path.join(sd, name, "patch.diff")
+            if os.path.exists(mp) and os.path.exists(pp):
+                meta = json.load(open(mp))
+                out.append({"id": "seed-" + name, "prop": meta["property"], "expect": None, "patch": pp, "edits": []})
     return out
 
 
 def apply(root, m):
     """returns None if applied, else reason"""
+    if m.get("patch"):
+        r = subprocess.run(["git", "apply", "--unsafe-paths", "--directory", root, m["patch"]], capture_output=True, text=True, cwd="/")
+        if r.returncode != 0:
+            r = subprocess.run(["patch", "-p1", "-s", "-d", root, "-i", m["patch"]], capture_output=True, text=True)
+            if r.returncode != 0:
+                return "patch does not apply: " + (r.stderr or r.stdout)[-200:]
+        return None
     for e in m["edits"]:
         p = os.path.join(root, e["file"])
         if not os.path.exists(p):
@@ -53,6 +69,8 @@ def run(args):
         for m in muts:
             t0 = time.time()
             # restore
+            if any(x.get("patch") for x in muts):
+                subprocess.check_call(["rsync", "-a", "--delete", pristine + "/", copy + "/"])
             for e in m["edits"]:
                 src = os.path.join(pristine, e["file"])
                 if os.path.exists(src):
@@ -91,5 +109,5 @@ def run(args):
 
 if __name__ == "__main__":
     ap = argparse.ArgumentParser()
-    ap.add_argument("--prop"); ap.add_argument("--id"); ap.add_argument("--keep", action="store_true"); ap.add_argument("--pristine", action="store_true")
+    ap.add_argument("--prop"); ap.add_argument("--id"); ap.add_argument("--keep", action="store_true"); ap.add_argument("--pristine", action="store_true"); ap.add_argument("--quiet", action="store_true")
     sys.exit(run(ap.parse_args()))
